@@ -121,7 +121,7 @@ impl Property for C02 {
         }
     }
     fn required_labels(&self, _tier: Tier) -> Vec<&'static str> {
-        vec!["nontrivial", "ancestors>30", "parents>30", "records>255", "same-id-two-kinds", "rec-without-terms", "link-on-term-and-ancestor", "bulk>65535-terms", "depth>255"]
+        vec!["nontrivial", "ancestors>30", "parents>30", "records>255", "same-id-two-kinds", "rec-without-terms", "link-on-term-and-ancestor", "bulk>65535-terms", "depth>255", "direct-parents>255"]
     }
     fn run_generated(&self, tier: Tier, seed: u64, n: u64, stats: &mut Stats) -> Option<(Value, Failure)> {
         let max = if tier == Tier::Quick { 44 } else { 90 };
@@ -150,6 +150,17 @@ impl Property for C02 {
             }
             return Ok(r);
         }
+        if let Some(b) = case.get("fanin") {
+            // one term with more direct parents than an 8-bit counter holds (see `fanin_facts`)
+            let v: (u32, u32, u32, PathSel) = serde_json::from_value(b.clone()).map_err(|e| e.to_string())?;
+            stats.cases += 1;
+            let c = OntCase { facts: super::common::fanin_facts(v.0, v.1, v.2), path: v.3, noise: Default::default() };
+            let r = check(&c, stats);
+            if r.is_ok() {
+                stats.label("direct-parents>255");
+            }
+            return Ok(r);
+        }
         replay_typed::<OntCase, _>(case, stats, check)
     }
     fn isolated_plans(&self, tier: Tier, seed: u64) -> Vec<Value> {
@@ -167,6 +178,10 @@ impl Property for C02 {
             deep.push((600, mult, 20, PathSel::Bin(1)));
         }
         out.extend(deep.into_iter().map(|p| json!({"deep": p})));
+        out.push(json!({"fanin": (300u32, mult, 12u32, PathSel::Bin(3))}));
+        if tier == Tier::Thorough {
+            out.push(json!({"fanin": (70_000u32, mult, 40u32, PathSel::RoundTrip)}));
+        }
         out
     }
 }
